@@ -23,7 +23,7 @@ ASSUMPTIONS = ["a bytecode boundary inside `task.completed += advance` is a lega
                "float addition order), percentage = clamp(completed/total*100)",
                "on an early break out of track() the element being processed may or may not have been counted"]
 REQUIRED = ["mon.concurrent_estimates", "mon.track_schedules", "mon.completed", "mon.percentage", "mon.finished", "mon.finish_time_fixed", "mon.speed", "mon.track",
-            "mon.schedules", "mon.conservation", "mon.lock_order_replay", "mon.switches_inside_mutators"]
+            "mon.schedules", "mon.conservation", "mon.lock_order_replay", "mon.switches_inside_mutators", "mon.time_remaining_any_time", "mon.track_long_sequence"]
 MIN_NONTRIVIAL = {"quick": 1500, "thorough": 80000}
 
 
